@@ -431,7 +431,26 @@ void run(size_t idx) {
 				if (loadNif(probe, other.second) != 0) continue;
 				auto &va = probe.GetHeader().GetVersion(), &vb = s2.GetHeader().GetVersion();
 				if (va.File() == vb.File() && va.User() == vb.User() && va.Stream() == vb.Stream()) {
-					loadNif(dst, other.second);
+					std::string dbytes = other.second;
+					if ((idx / 3) % 3 == 2) {
+						// a destination that holds a block type the library does not know (an extra data or property type relabelled outside the
+						// library): saving keeps its string table and block order, the clone still has to come back under its name
+						indep::Header h = indep::parse(dbytes);
+						if (h.ok && h.hasSizes && h.blocksEnd + 8 == dbytes.size()) {
+							std::vector<size_t> cand;
+							for (size_t t = 0; t < h.types.size(); t++)
+								if (h.types[t].find("ExtraData") != std::string::npos || h.types[t].find("BSXFlags") != std::string::npos || h.types[t].find("Controller") != std::string::npos) cand.push_back(t);
+							if (!cand.empty()) {
+								indep::Header mod = h;
+								size_t t = cand[rng.below((uint32_t)cand.size())];
+								mod.types[t] = "Xq" + mod.types[t];
+								dbytes = indep::withHeader(dbytes, h, mod);
+								what += " [destination holds unknown block type " + mod.types[t] + "]";
+								R_stat("clones_into_models_with_unknown_block_types");
+							}
+						}
+					}
+					if (loadNif(dst, dbytes) != 0) continue;
 					size_t q = 0;
 					for (auto x : dst.GetShapes()) x->name.get() = "d" + std::to_string(q++) + "_" + x->name.get();
 					found = true;
@@ -449,7 +468,7 @@ void run(size_t idx) {
 MonReg reg({"C14", "exploration",
 			"every shape (up to 4 per model) of the real samples, of API-built models (skinned/unskinned, six versions, with and without model-space-normal shaders and NiTexturingProperty/NiSourceTexture chains) and of synthesised files around each geometry class with populated "
 			"children (properties, controllers, extra data, collision objects, skin blocks) x destination in {same model, fresh model of the same version, another loaded model of the "
-			"same version} x 1..3 repetitions; a quarter of the clones into other models start from a skeleton with depth (bones re-parented below other bones) while the destination already owns only the upper bones. Oracle: the owned sub-graph below the clone is isomorphic to the source's (same types, canonical payloads equal, every owning slot resolved "
+			"same version} x 1..3 repetitions; a quarter of the clones into other models start from a skeleton with depth (bones re-parented below other bones) while the destination already owns only the upper bones; a third of the other-model destinations hold a block type the library does not know. Oracle: the owned sub-graph below the clone is isomorphic to the source's (same types, canonical payloads equal, every owning slot resolved "
 			"inside the destination, no child shared with the source, back-pointers land on a block of the same kind and name or are dropped); accessor record (geometry, shader, textures, "
 			"skin) equal; bone list names equal and the bones exist; raw save of the source unchanged; destination default-saves and reloads with the clone present and unchanged. Plus, memory safety only: cloning inside models whose node tree repeats names.",
 			[] { return g_models.size() * 3; }, run, 6, 300.0, false, false, init});
